@@ -451,10 +451,32 @@ class Report:
         return 1 if nviol else 0
 
 
+def refresh_tables():
+    """Regenerate every source-derived Lean table from /repo's working tree (best effort: the owning check reports
+    an extractor that cannot read the source as its own broken tie; here a failure only leaves the previous table,
+    whose proof obligations then speak for themselves)."""
+    tools = os.path.join(VERIF, "tools")
+    if tools not in sys.path:
+        sys.path.insert(0, tools)
+    import importlib
+    for mod, fn in (("extract_gctrace", "main_write"), ("extract_escape_table", "main_write"),
+                    ("extract_tracesites", "generate"), ("extract_number_sites", "main_write")):
+        try:
+            getattr(importlib.import_module(mod), fn)()
+        except BaseException:  # noqa  (extractors may call sys.exit)
+            pass
+    try:
+        subprocess.run([sys.executable, os.path.join(tools, "extract_precedence.py")],
+                       stdout=subprocess.DEVNULL, stderr=subprocess.DEVNULL, timeout=300)
+    except Exception:  # noqa
+        pass
+
+
 def prelude(rep, cli=False, extra_modules=()):
     """Rebuild harness (and CLI) from /repo's working tree, rebuild + audit proofs.
     A broken proof is recorded (the failing-input search still runs)."""
     build_harness()
+    refresh_tables()
     if cli:
         build_cli()
     try:
